@@ -300,6 +300,9 @@ def worker(part, acc):
 
 
 def run(ctx):
+    from ..seams import validate as _validate_seams
+
+    seam_report = _validate_seams(PROP)  # real random sources under a recorder: every API reached must be modelled (else exit 2)
     its = list(items(ctx.tier))
     k = ctx.jobs * 8
     shards = [its[i::k] for i in range(k)]
@@ -317,6 +320,7 @@ def run(ctx):
     it = s[(ctx.seed * 5 + 2) % len(s)][1]
     ctx.sample({"sequences": {"deg_seq": list(it[0]), "dim_seq": dict(it[1]), "burn_in": it[2], "intermediate": it[3]}})
     cov = {
+        "seam_validation": seam_report,
         "states": len(oc), "transitions": ev, "traces_validated_against_impl": ev, "evaluations": ev, "distinct_nontrivial": len(nt), "exhaustive": True,
         "pruned_at_horizon": ctx.counts.get("pruned-horizon", 0),
         "rule": "through the public generator HyMMSBMSampler(...).sample(...): every ordered pair draw, every reshuffle subset, both outcomes of the MH accept "
